@@ -97,9 +97,19 @@ func mkDOCXBlocks(blocks []wpBlock, header, footer string) []zipMember {
 	for _, b := range blocks {
 		switch b.kind {
 		case 0:
-			fmt.Fprintf(&d, `<w:p>%s</w:p>`, b.docxInner())
+			if b.via == 3 {
+				// an ordinary paragraph in a custom body style (shared with headings made by a direct outline level)
+				fmt.Fprintf(&d, `<w:p><w:pPr><w:pStyle w:val="BodyCustom"/></w:pPr>%s</w:p>`, b.docxInner())
+			} else {
+				fmt.Fprintf(&d, `<w:p>%s</w:p>`, b.docxInner())
+			}
 		case 1:
-			fmt.Fprintf(&d, `<w:p><w:pPr><w:pStyle w:val="%s"/></w:pPr>%s</w:p>`, docxHeadingStyle(b.level, b.via), b.docxInner())
+			if b.via == 3 {
+				// a heading by a direct outline level on a paragraph whose style is an ordinary body style
+				fmt.Fprintf(&d, `<w:p><w:pPr><w:pStyle w:val="BodyCustom"/><w:outlineLvl w:val="%d"/></w:pPr>%s</w:p>`, b.level-1, b.docxInner())
+			} else {
+				fmt.Fprintf(&d, `<w:p><w:pPr><w:pStyle w:val="%s"/></w:pPr>%s</w:p>`, docxHeadingStyle(b.level, b.via), b.docxInner())
+			}
 		case 2:
 			fmt.Fprintf(&d, `<w:p><w:pPr><w:pStyle w:val="ListParagraph"/><w:numPr><w:ilvl w:val="%d"/><w:numId w:val="%d"/></w:numPr></w:pPr>%s</w:p>`, b.level, b.listID, b.docxInner())
 		case 3:
@@ -161,6 +171,7 @@ func mkDOCXBlocks(blocks []wpBlock, header, footer string) []zipMember {
 		fmt.Fprintf(&st, `<w:style w:type="paragraph" w:styleId="MyHead%d"><w:name w:val="Chapter Style %c"/><w:basedOn w:val="Heading%d"/></w:style>`, l, 'A'+l, l)
 		fmt.Fprintf(&st, `<w:style w:type="paragraph" w:styleId="Outline%d"><w:name w:val="Plain Outline %c"/><w:basedOn w:val="Normal"/><w:pPr><w:outlineLvl w:val="%d"/></w:pPr></w:style>`, l, 'A'+l, l-1)
 	}
+	st.WriteString(`<w:style w:type="paragraph" w:styleId="BodyCustom"><w:name w:val="Body Custom"/><w:basedOn w:val="Normal"/></w:style>`)
 	st.WriteString(`</w:styles>`)
 
 	var nm strings.Builder
